@@ -290,6 +290,31 @@ func transcript(r *mon.Run, path string) {
 			case 6:
 				a, b := sc(), sc()
 				emit("ScalarArith", secp256k1.NewScalar().Multiply(a, b).Bytes(), secp256k1.NewScalar().Invert(a).Bytes(), secp256k1.NewScalar().Subtract(a, b).Bytes(), []byte{byte(a.IsGreaterThanHalfN())})
+				// the word-level predicates on values whose stored limbs / whose distance to the
+				// half order is a word with related 32-bit halves (32-bit builds handle 64-bit
+				// words as register pairs)
+				{
+					var l [4]uint64
+					j := rng.Intn(4)
+					l[j] = rng.HalfWord()
+					hw := oracle.FromLimbs(l)
+					var preds []byte
+					if hw.Cmp(n) < 0 {
+						z := scalarFromBig(oracle.FromMont(hw, n))
+						al := oracle.Limbs(oracle.ToMont(bigFromScalar(a), n))
+						al[j] ^= l[j]
+						preds = append(preds, byte(z.IsZero()), byte(z.Equal(secp256k1.NewScalar())))
+						if a2 := oracle.FromLimbs(al); a2.Cmp(n) < 0 {
+							preds = append(preds, byte(a.Equal(scalarFromBig(oracle.FromMont(a2, n)))))
+						}
+					}
+					for _, v := range []*big.Int{new(big.Int).Add(oracle.HalfN, hw), new(big.Int).Sub(oracle.HalfN, hw)} {
+						if v.Sign() > 0 && v.Cmp(n) < 0 {
+							preds = append(preds, byte(scalarFromBig(v).IsGreaterThanHalfN()))
+						}
+					}
+					emit("ScalarPredicates/half-word", preds)
+				}
 			case 7, 8:
 				d, _ := keyValue(rng)
 				dig, _ := digestValue(rng, false)
